@@ -68,6 +68,9 @@ def configs(tier):
                 if entry == 'Gillespie_SIS':
                     c['truncate'] = True
                 out.append(c)
+                if I0 == [0] and full:
+                    # the documented default (no initial_infecteds: one random node), with an initially recovered node for SIR
+                    out.append(dict(c, omit_I0=True, R0=[1] if sir else [], tags=c['tags'] + ['default-ic']))
                 if I0 == [0] and entry in ('Gillespie_SIR', 'Gillespie_SIS', 'fast_SIR', 'fast_nonMarkov_SIR') and (full or entry.startswith('Gillespie')):
                     # the triangle is the smallest graph on which the order of a neighbour loop can change a candidate list
                     out.append(dict(c, graph='K3', tags=c['tags'] + ['K3']))
